@@ -40,7 +40,9 @@ from compiler.util import resources
 PROP = "C16"
 MODEL = "model_c16"
 CORPUS = os.path.join(common.VERIF, "corpus", PROP)
-CASE_TIMEOUT = 60
+CASE_TIMEOUT = 30
+# narrow predicate of the open finding "astronomically large constant field size": `[+N]`, N >= 10^6
+HUGE_SIZE = gen.HUGE
 
 
 # =================================================================== encoding
@@ -139,7 +141,8 @@ def check_errors(errors, files, main, what):
                 continue
             head = m.message.split("\n")[0][:80]
             if loc.is_synthetic:
-                bad.append(("synthetic-location-shown", "%s: message %r has a synthetic location" % (what, head)))
+                bad.append(("synthetic-location-shown:" + msg_kind(m)[:48],
+                            "%s: message %r has a synthetic location (rendered as [compiler bug])" % (what, head)))
                 continue
             f = m.source_file
             if not isinstance(f, str):
@@ -162,7 +165,8 @@ def check_errors(errors, files, main, what):
             if p is None and not (loc.start <= loc.end):
                 p = "start after end"
             if p:
-                bad.append(("position-outside-file", "%s: message %r at %s in %r: %s" % (what, head, loc, f, p)))
+                bad.append(("position-outside-file:" + msg_kind(m)[:48],
+                            "%s: message %r at %s in %r: %s" % (what, head, loc, f, p)))
     return bad
 
 
@@ -194,12 +198,15 @@ def run_case(case, want_model_lines=True):
     files, main = case["files"], case["main"]
     res = {"kind": case["kind"], "outcome": None, "bad": [], "kinds": [], "fmt": None}
     old = signal.signal(signal.SIGALRM, _alarm)
-    signal.alarm(CASE_TIMEOUT)
+    signal.alarm(case.get("timeout", CASE_TIMEOUT))
     try:
         _run_case(case, files, main, res, want_model_lines)
     except _Timeout:
         res["outcome"] = "timeout"
-        res["bad"].append(("timeout", "no result within %d s" % CASE_TIMEOUT))
+        key = "timeout"
+        if any(HUGE_SIZE.search(t) for t in files.values()):
+            key = "timeout:constant-field-size>=10^6"
+        res["bad"].append((key, "no result within %d s" % case.get("timeout", CASE_TIMEOUT)))
     finally:
         signal.alarm(0)
         signal.signal(signal.SIGALRM, old)
@@ -385,10 +392,13 @@ def known_cases(chk):
     """Pinned input of every open finding of this property (re-executed on every run)."""
     out = []
     for k in chk.known:
-        if k.get("property") == PROP and k.get("status") == "open" and k.get("input") is not None:
+        if k.get("property") == PROP and k.get("status") == "open" and k.get("input") is not None \
+                and not k.get("cli_only"):
             files = k.get("files") or {"m.emb": k["input"]}
-            out.append((k, {"kind": "known/" + k["key"], "main": k.get("main", "m.emb"), "files": files,
-                            "nesting": 0}))
+            c = {"kind": "known/" + k["key"], "main": k.get("main", "m.emb"), "files": files, "nesting": 0}
+            if k.get("timeout"):
+                c["timeout"] = k["timeout"]
+            out.append((k, c))
     return out
 
 
@@ -782,29 +792,29 @@ def run_cli(job):
         with open(p, "wb") as f:
             f.write(v)
     os.makedirs(os.path.join(d, "in"), exist_ok=True)
-    env = dict(os.environ, PYTHONPATH=common.REPO, PYTHONDONTWRITEBYTECODE="1")
+    env = dict(os.environ, PYTHONPATH=common.REPO)
     py = sys.executable
     steps = []
     if tool == "embossc":
-        cmd = [py, "-B", os.path.join(common.REPO, "embossc"), "--import-dir", os.path.join(d, "in"),
+        cmd = [py, os.path.join(common.REPO, "embossc"), "--import-dir", os.path.join(d, "in"),
                "--output-path", os.path.join(d, "out"), "--color-output", "always" if idx % 2 else "never", c["main"]]
         steps.append(("embossc", cmd, None))
     else:
         irf = os.path.join(d, "ir.json")
-        steps.append(("emboss_front_end", [py, "-B", "-m", "compiler.front_end.emboss_front_end", "--import-dir",
+        steps.append(("emboss_front_end", [py, "-m", "compiler.front_end.emboss_front_end", "--import-dir",
                                            os.path.join(d, "in"), "--output-file", irf, c["main"]], None))
-        steps.append(("emboss_codegen_cpp", [py, "-B", "-m", "compiler.back_end.cpp.emboss_codegen_cpp",
+        steps.append(("emboss_codegen_cpp", [py, "-m", "compiler.back_end.cpp.emboss_codegen_cpp",
                                              "--input-file", irf, "--output-file", os.path.join(d, "out.h")], irf))
     res = []
     for name, cmd, needs in steps:
         if needs and not os.path.exists(needs):
             break
         try:
-            p = subprocess.run(cmd, cwd=common.REPO, env=env, stdout=subprocess.PIPE, stderr=subprocess.PIPE, timeout=300)
+            p = subprocess.run(cmd, cwd=d, env=env, stdout=subprocess.PIPE, stderr=subprocess.PIPE, timeout=300)
         except subprocess.TimeoutExpired:
             res.append((name, "timeout", "", ""))
             break
-        res.append((name, p.returncode, p.stderr.decode(errors="replace"), " ".join(cmd[2:])))
+        res.append((name, p.returncode, p.stderr.decode(errors="replace"), " ".join(cmd[1:])))
         if p.returncode != 0:
             break
     produced = os.path.exists(os.path.join(d, "out", c["main"] + ".h")) or os.path.exists(os.path.join(d, "out.h"))
@@ -885,7 +895,7 @@ def exploration(chk, tier, with_model):
                 ex.record(case, {"kind": case["kind"], "outcome": res["outcome"], "bad": [(key, desc)],
                                  "kinds": [], "fmt": None})
     first = load_corpus() + testdata_cases() + gen.boundary_cases()
-    n = 2600 if tier == "quick" else 60000
+    n = 1500 if tier == "quick" else 60000
     cases = first + [gen.pick(r) for _ in range(n)]
     t0 = time.time()
     ex.run(cases, procs=4)
@@ -920,17 +930,24 @@ def run(tier):
     else:
         ex, cases = exploration(chk, tier, with_model=model_ok)
     r = common.rng("C16-tie")
+    phase = chk.extra.setdefault("phase_s", {})
+
+    def timed(name, f, *a):
+        t0 = time.time()
+        out = f(*a)
+        phase[name] = round(time.time() - t0, 1)
+        return out
     if model_ok:
         q = tier == "quick"
-        real_pes = collect_parse_errors(cases[: (600 if q else 6000)])
-        tie_primitives(chk, r, 1500 if q else 20000)
-        tie_format(chk, r, 600 if q else 8000, ex.fmt_cases)
-        tie_parse_error(chk, r, 300 if q else 3000, real_pes)
-        tie_process(chk, r, 600 if q else 8000)
-        tie_queue(chk, r, 150 if q else 2000)
+        real_pes = timed("collect_parse_errors", collect_parse_errors, cases[: (400 if q else 6000)])
+        timed("tie_primitives", tie_primitives, chk, r, 1500 if q else 20000)
+        timed("tie_format", tie_format, chk, r, 600 if q else 8000, ex.fmt_cases)
+        timed("tie_parse_error", tie_parse_error, chk, r, 300 if q else 3000, real_pes)
+        timed("tie_process", tie_process, chk, r, 600 if q else 8000)
+        timed("tie_queue", tie_queue, chk, r, 150 if q else 2000)
         chk.extra["traces_validated_against_impl"] = sum(v["compared"] for v in chk.extra.get("tie", {}).values())
-    explore_cli(chk, common.rng("C16-cli"), 7 if tier == "quick" else 150,
-                [c for c in cases if c["kind"].split("/")[0] in ("boundary", "sem", "grammar", "mutate", "imports", "corpus", "soup")])
+    timed("cli", explore_cli, chk, common.rng("C16-cli"), 7 if tier == "quick" else 150,
+          [c for c in cases if c["kind"].split("/")[0] in ("boundary", "sem", "grammar", "mutate", "imports", "corpus", "soup")])
     ex.finish()
     return chk.finish()
 
